@@ -93,6 +93,8 @@ class Wrapc(util.WrapperMixin):
         self.add_capsule_code("--none--", None, ["// Nothing to delete"])
         self.struct_header = {}
         self.find_struct_headers(newlibrary)
+        self.enum_typemaps = {}
+        self.find_enum_typemaps(newlibrary)
         self.wrap_namespace(newlibrary.wrap_namespace, True)
 
         self.gather_helper_code(self.shared_helper)
@@ -112,6 +114,19 @@ class Wrapc(util.WrapperMixin):
                     node.fmtdict.C_header_filename
         for ns in node.namespaces:
             self.find_struct_headers(ns)
+
+    def find_enum_typemaps(self, node):
+        """Record the typemaps of the library's enums.
+
+        Args:
+            node - ast.LibraryNode, ast.NamespaceNode, ast.ClassNode
+        """
+        for enum in node.enums:
+            self.enum_typemaps[enum.typemap.name] = True
+        for cls in node.classes:
+            self.find_enum_typemaps(cls)
+        for ns in getattr(node, "namespaces", []):
+            self.find_enum_typemaps(ns)
 
     def wrap_namespace(self, node, top=False):
         """Wrap a library or namespace.
@@ -1101,7 +1116,18 @@ class Wrapc(util.WrapperMixin):
                 else:
                     # convert C argument to C++
                     fmt_arg.cxx_var = fmt_arg.CXX_local + fmt_arg.c_var
-                    fmt_arg.cxx_val = wformat(arg_typemap.c_to_cxx, fmt_arg)
+                    if arg.is_indirect() and \
+                       arg_typemap.name in self.enum_typemaps:
+                        # c_to_cxx converts a value.  A pointer to the
+                        # int form of an enum is converted as a pointer
+                        # (like a struct).
+                        fmt_arg.cxx_val = wformat(
+                            "static_cast<{c_const}{cxx_type} *>\t"
+                            "(static_cast<{c_const}void *>(\t{c_var}))",
+                            fmt_arg)
+                    else:
+                        fmt_arg.cxx_val = wformat(
+                            arg_typemap.c_to_cxx, fmt_arg)
                     fmt_arg.cxx_decl = arg.gen_arg_as_cxx(
                         name=fmt_arg.cxx_var,
                         params=None,
